@@ -675,16 +675,14 @@ func c11R4(p *Prog, r *Report) {
 	}
 	// guard: reached only when !( !UseConstructor || !Identical(src) || !Identical(tgt) )
 	b := call.Block()
-	haveUse := dominatedByEdge(b, true, func(c ssa.Value) bool { return loadsField(c, "UseConstructor") })
+	haveUse := false
 	nIdent := 0
-	for d := b; d != nil && d.Idom() != nil; d = d.Idom() {
-		idom := d.Idom()
-		if ifi, ok := idom.Instrs[len(idom.Instrs)-1].(*ssa.If); ok {
-			if c, ok := ifi.Cond.(*ssa.Call); ok && ssaCalleeObj(c) != nil && isFunc(ssaCalleeObj(c), "go/types", "", "Identical") {
-				if idom.Succs[0].Dominates(b) {
-					nIdent++
-				}
-			}
+	for _, f := range factsAt(b) {
+		if loadsField(f, "UseConstructor") {
+			haveUse = true
+		}
+		if c, ok := f.(*ssa.Call); ok && ssaCalleeObj(c) != nil && isFunc(ssaCalleeObj(c), "go/types", "", "Identical") {
+			nIdent++
 		}
 	}
 	if haveUse && nIdent >= 2 {
@@ -751,28 +749,39 @@ func c11R5(p *Prog, r *Report) {
 			r.Bad(site, p.PosStr(fi.Decl.Pos()), "no branch for UseConstructor && DefaultUpdate: default:update would replace FUNC's result instead of updating it")
 			continue
 		}
-		hasTV := len(findCalls(info, br.Body, modPath+"/builder", "", "buildTargetVar")) == 1
-		hasUpd := false
+		// the branch body, plus the bodies of private helpers it delegates to
+		scopes := []ast.Node{br.Body}
 		ast.Inspect(br.Body, func(n ast.Node) bool {
 			if call, ok := n.(*ast.CallExpr); ok {
-				if f, ok := calleeObj(info, call).(*types.Func); ok && f.Name() == "IsUpdate" {
-					hasUpd = true
+				if f, ok := calleeObj(info, call).(*types.Func); ok && !f.Exported() && objPkgPath(f) == modPath+"/builder" && f.Name() != "buildTargetVar" {
+					if h := p.Func(funcKey(f)); h != nil && h.Decl.Body != nil {
+						scopes = append(scopes, h.Decl.Body)
+					}
 				}
 			}
 			return true
 		})
-		// buildStmt = append(buildStmt, <If(sourceID != nil){ stmt… }>) — in place or through a helper
+		nTV := 0
+		hasUpd := false
 		guarded := false
-		ast.Inspect(br.Body, func(n ast.Node) bool {
-			call, ok := n.(*ast.CallExpr)
-			if !ok {
+		for _, sc := range scopes {
+			nTV += len(findCalls(info, sc, modPath+"/builder", "", "buildTargetVar"))
+			ast.Inspect(sc, func(n ast.Node) bool {
+				call, ok := n.(*ast.CallExpr)
+				if !ok {
+					return true
+				}
+				if f, ok := calleeObj(info, call).(*types.Func); ok && f.Name() == "IsUpdate" {
+					hasUpd = true
+				}
+				// buildStmt = append(buildStmt, <If(sourceID != nil){ stmt… }>) — in place or through a helper
+				if cond, blk, ok := p.nilGuardOf(info, call); ok && cond == "sourceID.Code" && strings.HasPrefix(blk, "stmt") {
+					guarded = true
+				}
 				return true
-			}
-			if cond, blk, ok := p.nilGuardOf(info, call); ok && cond == "sourceID.Code" && strings.HasPrefix(blk, "stmt") {
-				guarded = true
-			}
-			return true
-		})
+			})
+		}
+		hasTV := nTV == 1
 		if hasTV && hasUpd && guarded {
 			r.OK(site, p.PosStr(br.Pos()), "FUNC's result, then If(source != nil){ update with the source }")
 		} else {
@@ -780,19 +789,31 @@ func c11R5(p *Prog, r *Report) {
 		}
 	}
 	if fi := p.Func("builder.(*TargetPointer).Build"); fi != nil {
-		info := fi.Pkg.TypesInfo
 		ok := false
-		ast.Inspect(fi.Decl, func(n ast.Node) bool {
-			ifs, isIf := n.(*ast.IfStmt)
-			if isIf && exprString(ifs.Cond) == "ctx.UseConstructor" {
-				tv := len(findCalls(info, ifs.Body, modPath+"/builder", "", "buildTargetVar")) == 1
-				upd := strings.Contains(nodeText(ifs.Body), "IsUpdate")
-				if tv && upd {
+		for _, f := range p.Region("builder.(*TargetPointer).Build") {
+			sf := p.SSAFunc(f)
+			if sf == nil {
+				continue
+			}
+			for _, c := range callsIn(sf, false, isObj(modPath+"/builder", "", "buildTargetVar")) {
+				b := c.(ssa.Instruction).Block()
+				under := false
+				for _, fact := range factsAt(b) {
+					if loadsField(fact, "UseConstructor") {
+						under = true
+					}
+				}
+				upd := false
+				for _, u := range callsIn(sf, false, isObj(modPath+"/builder", "AssignTo", "IsUpdate")) {
+					if b.Dominates(u.(ssa.Instruction).Block()) {
+						upd = true
+					}
+				}
+				if under && upd {
 					ok = true
 				}
 			}
-			return true
-		})
+		}
 		if ok {
 			r.OK("builder.(*TargetPointer).Build/constructor", p.PosStr(fi.Decl.Pos()), "with a default FUNC the source is applied on top of FUNC's pointer result")
 		} else {
